@@ -167,6 +167,9 @@ def main(argv):
                                 % (j['name'], agg['cases_run'], n))
         prefixes = spec.get('key_prefixes')
         for v in agg['viols']:
+            if v['key'].startswith('inconclusive:'):
+                inconclusive.append('%s: %s' % (j['name'], v['key']))
+                continue
             if prefixes and not v['key'].startswith(tuple(prefixes)):
                 # observation belonging to another property decided by the
                 # same executions: listed, not judged here
